@@ -329,6 +329,19 @@ theorem expire_inv (I : Part → Prop) (hp : Pres I) (f : Nat) (s : State) (h : 
           rw [← hs']
           exact endTx_inv I hp _ _ _ _ h
 
+theorem expireOne_inv (I : Part → Prop) (hp : Pres I) (s s' : State) (h : AllI I s) (hs' : expireOne s = some s') : AllI I s' := by
+  unfold expireOne at hs'
+  simp only at hs'
+  split at hs'
+  · simp at hs'
+  · split at hs'
+    · simp only [Option.some.injEq] at hs'
+      rw [← hs']
+      exact endTx_inv I hp _ _ _ _ h
+    · simp only [Option.some.injEq] at hs'
+      rw [← hs']
+      exact endTx_inv I hp _ _ _ _ h
+
 theorem expireAll_inv (I : Part → Prop) (hp : Pres I) (s : State) (h : AllI I s) : AllI I (expireAll s) := expire_inv I hp _ s h
 
 theorem pidsGet_parts (s : State) (v12 : Bool) (k : Int) (p : Nat) (tx : Bool) : (pidsGet s v12 k p tx).1.parts = s.parts := by
@@ -375,7 +388,7 @@ theorem produce_append_aux (s : State) (v12 : Bool) (k epoch seq n nbytes : Int)
               · left; simp [setProd_parts, getOrCreate_parts, pidsGet_parts]
               · left; simp [setProd_parts, getOrCreate_parts, pidsGet_parts]
               · right
-                exact ⟨pd, hpd, by simp [setPart, setProd_parts, getOrCreate_parts, pidsGet_parts], rfl, rfl⟩
+                exact ⟨pd, hpd, by cases tx <;> simp [setPart, setProd_parts, getOrCreate_parts, pidsGet_parts], rfl, rfl⟩
 
 theorem pushBatch_hwm (pd : Part) (b : Batch) (t : Bool) : (pushBatch pd b t).hwm = pd.hwm + b.n := rfl
 
@@ -392,6 +405,54 @@ theorem initx_inv (I : Part → Prop) (hp : Pres I) (s : State) (k t : Int) (h :
       · exact endTx_inv I hp _ _ _ _ h
       · exact h
     · unfold AllI; simp only [setProd_parts]; exact h
+
+theorem fetch_parts (s : State) (f : FetchOp) (ord : List Nat) : (Model.C32.fetch s f ord).1.parts = s.parts := by
+  unfold Model.C32.fetch; simp only
+  split
+  · split <;> rfl
+  · split
+    · rfl
+    · split
+      · rfl
+      · split <;> rfl
+
+theorem waitLoop_inv (I : Part → Prop) (hp : Pres I) (n : Nat) (s : State) (rc : Bool) (w : Watch) (d : Int) (h : AllI I s) :
+    AllI I (waitLoop n s rc w d) := by
+  induction n generalizing s w with
+  | zero => exact h
+  | succ n ih =>
+    simp only [waitLoop]
+    split
+    · exact h
+    · rename_i s2 w2 fired hstep
+      have hs2 : AllI I s2 := by
+        unfold waitStep at hstep
+        simp only at hstep
+        split at hstep
+        · simp at hstep
+        · split at hstep
+          · simp at hstep
+          · rename_i s2' he
+            simp only [Option.some.injEq, Prod.mk.injEq] at hstep
+            rw [← hstep.1]
+            refine expireOne_inv I hp _ _ ?_ he
+            exact h
+      split
+      · exact hs2
+      · exact ih s2 w2 hs2
+
+theorem fetchW_inv (I : Part → Prop) (hp : Pres I) (s : State) (f : FetchOp) (ord : List Nat) (h : AllI I s) :
+    AllI I (fetchW s f ord).1 := by
+  unfold fetchW; simp only
+  split
+  · unfold AllI; rw [fetch_parts]; exact h
+  · split
+    · unfold AllI; rw [fetch_parts]; exact h
+    · unfold AllI; rw [fetch_parts]
+      apply waitLoop_inv I hp
+      split
+      · exact h
+      · split <;> exact h
 
 theorem step_inv (I : Part → Prop) (hp : Pres I) (s : State) (o : Op) (hv : Op.valid o) (h : AllI I s) : AllI I (step s o).1 := by
   cases o with
@@ -451,14 +512,7 @@ theorem step_inv (I : Part → Prop) (hp : Pres I) (s : State) (o : Op) (hv : Op
     simp only [step]; apply expireAll_inv I hp; exact h
   | fetch f ord =>
     simp only [step]; apply expireAll_inv I hp
-    unfold Model.C32.fetch; simp only
-    split
-    · split <;> exact h
-    · split
-      · exact h
-      · split
-        · exact h
-        · split <;> exact h
+    exact fetchW_inv I hp s f ord h
 
 theorem init_inv (I : Part → Prop) (h0 : I {}) (np : Nat) : AllI I (init np) := by
   intro pd hpd
